@@ -60,6 +60,10 @@ pub struct Case {
     pub concurrent: bool,
     pub order: Vec<u8>,
     pub jitter: Vec<u8>,
+    /// slot guards and the parent dropped by ops are dropped while their thread unwinds from a
+    /// panic (a worker that panics after writing its part of the entry)
+    #[serde(default)]
+    pub unwinding: bool,
 }
 
 #[derive(Default, Clone, Debug)]
@@ -167,7 +171,12 @@ pub fn check(case: &Case) -> CaseResult {
                     if !was {
                         m1.returned = Some(m1.value);
                     }
-                    no_panic("slot-guard-drop", || drop(g))?;
+                    if case.unwinding {
+                        classes.push("guard-dropped-while-unwinding");
+                        no_panic("slot-guard-drop-while-unwinding", || drop_while_unwinding(g))?;
+                    } else {
+                        no_panic("slot-guard-drop", || drop(g))?;
+                    }
                     if !parent_alive {
                         classes.push("parent-dropped-before-guard");
                     }
@@ -179,7 +188,12 @@ pub fn check(case: &Case) -> CaseResult {
                     if !was {
                         m2.returned = Some(m2.value);
                     }
-                    no_panic("slot-guard-drop", || drop(g))?;
+                    if case.unwinding {
+                        classes.push("guard-dropped-while-unwinding");
+                        no_panic("slot-guard-drop-while-unwinding", || drop_while_unwinding(g))?;
+                    } else {
+                        no_panic("slot-guard-drop", || drop(g))?;
+                    }
                     if !parent_alive {
                         classes.push("parent-dropped-before-guard");
                     }
@@ -232,7 +246,11 @@ pub fn check(case: &Case) -> CaseResult {
             Op::DropParent => {
                 if let Some(p) = parent.take() {
                     parent_alive = false;
-                    no_panic("parent-drop", || drop(p))?;
+                    if case.unwinding {
+                        no_panic("parent-drop-while-unwinding", || drop_while_unwinding(p))?;
+                    } else {
+                        no_panic("parent-drop", || drop(p))?;
+                    }
                     if (m1.guard_alive && m1.opened == Some(Mode::Wait)) || (m2.guard_alive && m2.opened == Some(Mode::Wait)) {
                         classes.push("parent-dropped-before-wait-guard");
                     }
@@ -490,6 +508,7 @@ fn exhaustive(ctx: &mut Ctx) {
                             concurrent: false,
                             order: vec![],
                             jitter: vec![],
+                            unwinding: false,
                         };
                         match check(&case) {
                             Ok(c) => {
@@ -546,6 +565,7 @@ fn exhaustive(ctx: &mut Ctx) {
             concurrent: false,
             order: vec![],
             jitter: vec![],
+            unwinding: false,
         };
         ctx.report_violation("c13-random", f, serde_json::to_value(&case).unwrap(), format!("{case:?}"));
     }
@@ -560,17 +580,18 @@ pub fn run(ctx: &mut Ctx) {
     ctx.explore(
         SubCfg::new(
             "c13-random",
-            "random sequences up to length 40 over the same ops plus wait_for_data polls (no-op waker; tokio's oneshot needs no runtime); model compared after every op. Non-trivial = parent dropped before a wait-mode guard",
+            "random sequences up to length 40 over the same ops plus wait_for_data polls (no-op waker; tokio's oneshot needs no runtime); model compared after every op; in 20% of the cases every guard / parent drop happens while the dropping thread unwinds from a panic. Non-trivial = parent dropped before a wait-mode guard",
             if q { 30_000 } else { 800_000 },
         )
         .threads(ctx.tier.pick(8, 16))
-        .mandatory(&["wait-mode", "discard-mode", "second-open", "force-flush", "parent-dropped-before-wait-guard", "wait-for-data-ready"]),
+        .mandatory(&["wait-mode", "discard-mode", "second-open", "force-flush", "parent-dropped-before-wait-guard", "wait-for-data-ready", "guard-dropped-while-unwinding"]),
         || {
-            prop::collection::vec(arb_op(), 0..40).prop_map(|ops| Case {
+            (prop::collection::vec(arb_op(), 0..40), prop::bool::weighted(0.2)).prop_map(|(ops, unwinding)| Case {
                 ops,
                 concurrent: false,
                 order: vec![],
                 jitter: vec![],
+                unwinding,
             })
         },
         check,
@@ -591,6 +612,7 @@ pub fn run(ctx: &mut Ctx) {
                     concurrent: false,
                     order: vec![],
                     jitter: vec![],
+                    unwinding: false,
                 }
             })
         },
@@ -619,6 +641,7 @@ pub fn run(ctx: &mut Ctx) {
                         concurrent: true,
                         order,
                         jitter,
+                        unwinding: false,
                     }
                 })
         },
